@@ -17,7 +17,7 @@ def run(ctx, drv):
     ctx.nontrivial_rule = ("solution sets of 0-10 members in 2-5 objectives (duplicates, single-coordinate ties, points on / beyond the "
                            "bounds on both sides, infeasible members, the same object listed twice), all direction assignments, bounds "
                            "given explicitly or through a reference set; lattice stream (coordinates k/8) on the exact wire too. "
-                           "non-trivial = >= 2 mutually non-dominated contributing points; distinct by request line")
+                           "non-trivial = >= 2 mutually non-dominated contributing points; distinct by request line + indicator objects re-used across problems and after re-declaring the same problem's directions; every spelling of the direction declaration")
     reqs, post = [], []
 
     def ask(line, fn):
@@ -108,6 +108,19 @@ def run(ctx, drv):
                     ctx.fail("hypervolume-changed-by-" + name, inp, g, got, "indicators.Hypervolume.calculate")
             if isinstance(g5, str) or g5 < got - 1e-12:
                 ctx.fail("hypervolume-decreased-when-adding-a-solution", dict(inp, added=list(newp.objectives)), g5, f">= {got}", "indicators.Hypervolume.calculate")
+        # the same indicator object and the same problem object after the problem's directions were declared anew
+        if t % 5 == 2 and not use_ref and sols:
+            dirs2 = tuple((not d) if rng.random() < 0.6 else d for d in dirs)
+            plat.declare_directions(p, dirs2, rng.randrange(8))
+            sols2 = [mk_sol(p, list(s.objectives), s.constraint_violation) for s in uniq]
+            got2 = call(hv.calculate, list(sols2))
+            exact2 = indic.hv_exact(dirs2, mn, mx, sols2)
+            ok2 = (not isinstance(got2, str)) and ((Fraction(got2) == exact2) if lattice else close(got2, exact2))
+            if not ok2:
+                ctx.fail("hypervolume-not-dominated-volume", dict(inp, maximise=list(dirs2), note="same problem object re-declared from " + str(list(dirs)) + ", same indicator object"),
+                         got2, float(exact2), "indicators.Hypervolume.calculate")
+                ctx.failures[-1]["input_class"] = "re-declared-directions"
+            plat.declare_directions(p, dirs, 0)
         contrib = len({tuple(s.objectives) for s in sols if s.constraint_violation == 0})
         ctx.case(reqs[-1], contrib >= 2 and exact > 0, dict(inp, hypervolume=got) if len(ctx.samples) < 3 and contrib >= 3 else None)
     if drv.ok:
